@@ -376,7 +376,14 @@ class Gen:
             return self.t("mul")(g(d - 1), g(d - 1))
         if k == 5:
             self.f("expr-default")
-            return self.t("addx")(g(d - 1)) if r.random() < 0.6 else self.t("addx")(g(d - 1), g(d - 1))
+            c = r.random()
+            if c < 0.5:
+                return self.t("addx")(g(d - 1))
+            if c < 0.7:
+                return self.t("addx")(g(d - 1), g(d - 1))
+            if c < 0.85:
+                return self.t("addx")(g(d - 1), b=g(d - 1))
+            return self.t("dflt_fail")(g(d - 1), b=g(d - 1))
         if k == 6:
             return self.t("total")(self.list(d - 1))
         if k == 7:
@@ -448,6 +455,9 @@ class Gen:
                              lambda: as_task(L.py_double)(g(d - 1)), lambda: apply_func(sum, self.list(d - 1))])()
         if k == 27:
             self.f("lazy-call")
+            if r.random() < 0.3:
+                self.f("lazy-call-kw-override")
+                return self.t("identity")(L.add.partial(b=self.lit()))(g(d - 1), b=g(d - 1))
             return self.task_expr(d - 1)(g(d - 1))
         if k == 28:
             self.f("catch_all")
